@@ -796,3 +796,127 @@ Proof.
   exact (d_disc _ HI).
 Qed.
 
+
+(** * The router parks (without a sink having said Pending) only with empty buffers (C09) *)
+
+(** control points of the loop body after the buffered reply has been dealt with *)
+Definition past_reply (c : rpc) : bool :=
+  match c with
+  | RStreamsStart | RStreams _ _ _ | RDoneFlushRouter _ | RDoneFlushSrv
+  | RBothCheck | RBothFlushRouter _ | RBothFlushSrv => true
+  | _ => false
+  end.
+(** ... after the rejection slot has been drained *)
+Definition past_err (c : rpc) : bool :=
+  match c with
+  | RHandle | RServerCheck | RServerPoll | RSrvEndFlushSrv | RSrvEndFlushRouter _
+  | RRepCheck | RRepReady _ | RRepSend => true
+  | c => past_reply c
+  end.
+(** ... where the loop decides to park *)
+Definition parking (c : rpc) : bool :=
+  match c with RBothCheck | RBothFlushRouter _ | RBothFlushSrv => true | _ => false end.
+(** ... within one iteration before the requestor streams have all been polled *)
+Definition stp_clear (c : rpc) : bool :=
+  match c with
+  | RReqReady | RReqSend | RErrSlot | RErrReady _ | RErrSend _ | RErrClose _ | RHandle
+  | RServerCheck | RServerPoll | RSrvEndFlushSrv | RSrvEndFlushRouter _
+  | RRepCheck | RRepReady _ | RRepSend | RStreamsStart | RStreams _ _ _ => true
+  | _ => false
+  end.
+
+(** ... where a buffered request can only be waiting for a replier that is not there *)
+Definition no_req (c : rpc) : bool :=
+  match c with RDoneFlushRouter _ | RDoneFlushSrv => true | c => before_streams c end.
+
+Definition DrainInv (s : rst) : Prop :=
+  (past_reply (rctl s) = true -> b_rep s = None)
+  /\ (past_err (rctl s) = true -> b_err s = None)
+  /\ (stp_clear (rctl s) = true -> stp s = false)
+  /\ (no_req (rctl s) = true -> b_req s = None \/ server s = None)
+  /\ (parking (rctl s) = true -> stp s = true -> b_req s = None \/ server s = None)
+  /\ (match rctl s with RBothFlushRouter _ | RBothFlushSrv => stp s = true | _ => True end).
+
+Definition drained (s : rst) : Prop := b_rep s = None /\ b_err s = None /\ (b_req s = None \/ server s = None).
+
+Ltac drain_solve :=
+  match goal with
+  | |- _ /\ _ => split; drain_solve
+  | |- _ => try discriminate; intros;
+            first [ reflexivity | discriminate | assumption | exact I | (left; reflexivity) | (right; reflexivity)
+                  | (exfalso; match goal with Hp : is_sink_ev_on _ _ ?e = Some RPending, Hf : rr_pending_answer ?e = false |- _ =>
+                       rewrite (is_sink_ev_on_pending _ _ _ Hp) in Hf; discriminate end)
+                  | solve [subst; cbn [rr_pending_answer] in *; intuition (try congruence; try discriminate)] ]
+  end.
+
+Lemma draininv_internal s s' : DrainInv s -> rinternal s = Some s' ->
+  DrainInv s' /\ (rctl s' = RReturn false -> drained s').
+Proof.
+  unfold DrainInv, drained. intros (H1 & H2 & H3 & H4 & H5 & H6) H. unfold rinternal in H.
+  crush_matches H; injection H as <-;
+    try match goal with Hc : rctl s = _ |- _ => rewrite Hc in H1, H2, H3, H4, H5, H6 end;
+    cbn [past_reply past_err parking stp_clear no_req before_streams] in H1, H2, H3, H4, H5;
+    rsimp; cbn [past_reply past_err parking stp_clear no_req before_streams];
+    repeat match goal with Hb : _ && _ = true |- _ => apply andb_prop in Hb; destruct Hb end;
+    repeat match goal with Hb : _ = _ |- _ => progress (rewrite Hb in * ) end;
+    drain_solve.
+Qed.
+
+Lemma draininv_step_raw s e s' : DrainInv s -> rstep_raw s e = Some s' ->
+  DrainInv s' /\ (rctl s' = RReturn false -> rr_pending_answer e = false -> drained s').
+Proof.
+  unfold DrainInv, drained. intros (H1 & H2 & H3 & H4 & H5 & H6) H. unfold rstep_raw, router_pass in H.
+  crush_matches H; injection H as <-;
+    try match goal with Hc : rctl s = _ |- _ => rewrite Hc in H1, H2, H3, H4, H5, H6 end;
+    cbn [past_reply past_err parking stp_clear no_req before_streams] in H1, H2, H3, H4, H5;
+    rsimp; try match goal with Hc : rctl s = _ |- _ => rewrite ?Hc end;
+    cbn [past_reply past_err parking stp_clear no_req before_streams];
+    repeat match goal with Hb : _ && _ = true |- _ => apply andb_prop in Hb; destruct Hb end;
+    repeat match goal with Hb : _ = _ |- _ => progress (rewrite Hb in * ) end;
+    drain_solve.
+Qed.
+
+Lemma drain_settle fuel : forall s s',
+  DrainInv s -> rsettle fuel s = Some s' ->
+  DrainInv s' /\ (rctl s' = RReturn false -> s' = s \/ drained s').
+Proof.
+  induction fuel as [|k IH]; intros s s' HD H; cbn [rsettle] in H; [discriminate|].
+  destruct (rinternal s) as [s1|] eqn:E.
+  - destruct (draininv_internal _ _ HD E) as [HD1 Hret].
+    destruct (IH s1 s' HD1 H) as (HD' & Hsame).
+    split; [exact HD'|]. intros Hr. right. destruct (Hsame Hr) as [->|Hd]; [now apply Hret|exact Hd].
+  - injection H as <-. split; [exact HD|]. intros _. now left.
+Qed.
+
+Lemma draininv_init : DrainInv rinit.
+Proof. unfold DrainInv. cbn. repeat split; try discriminate; intros; try discriminate; auto. Qed.
+
+(** when a poll returns Pending in a step in which no sink answered Pending -- the router parks on
+    its streams and on the registration channel -- nothing it could still act on is buffered:
+    no reply, no rejection, and a request only if no replier is bound *)
+Theorem rr_parks_only_when_drained tr s e s' :
+  rrun rinit tr = Some s -> rstep s e = Some s' -> rctl s' = RReturn false -> rr_pending_answer e = false ->
+  drained s'.
+Proof.
+  intros Hrun Hstep Hret Hnp.
+  assert (HD : DrainInv s).
+  { revert Hrun. apply (lift_run DrainInv).
+    - intros a b Ha Hi. exact (proj1 (draininv_internal a b Ha Hi)).
+    - intros a ev b Ha Hr. exact (proj1 (draininv_step_raw a ev b Ha Hr)).
+    - exact draininv_init. }
+  unfold rstep, obind in Hstep.
+  destruct (rsettled s) as [s0|] eqn:E0; [|discriminate].
+  destruct (drain_settle _ _ _ HD E0) as (HD0 & _).
+  assert (Hone : forall a, DrainInv a ->
+                 match rstep_raw a e with Some x => rsettled x | None => None end = Some s' -> drained s').
+  { intros a Ha Hb. destruct (rstep_raw a e) as [x|] eqn:Ex; [|discriminate].
+    destruct (draininv_step_raw _ _ _ Ha Ex) as [HDx Hp].
+    destruct (drain_settle _ _ _ HDx Hb) as (_ & Hsame).
+    destruct (Hsame Hret) as [->|Hd]; [now apply Hp|exact Hd]. }
+  destruct (rctl s0) eqn:Ec0; try (now apply Hone with s0).
+  destruct e; try (now apply Hone with s0).
+  destruct (rstep_raw s0 (VStream l r)) as [s1|] eqn:E1; [|discriminate].
+  destruct (draininv_step_raw _ _ _ HD0 E1) as [HD1 _].
+  now apply Hone with s1.
+Qed.
+
